@@ -869,6 +869,9 @@ def normalize_networkx_labels(G):
     """Relabel all vertices as integer starting from 1"""
     # Normalize GML file. All nodes are integers starting from 1
     try:
+        # labels read from text files are strings: sort '10' after '9'
+        if all(isinstance(x, str) and x.isdigit() for x in G.nodes()):
+            G = networkx.relabel_nodes(G, {x: int(x) for x in G.nodes()})
         G = networkx.convert_node_labels_to_integers(
             G, first_label=1, ordering='sorted')
     except TypeError:
